@@ -389,7 +389,7 @@ def run_config_cells(impl, out):
     # the same for every shape of the upgrade request (transport value x Upgrade / Connection header spelling x sid or not),
     # each followed by the complete handshake a client would attempt
     for tq in ('websocket', 'polling'):
-        for up in ('websocket', 'WebSocket', 'WEBSOCKET', 'Websocket'):
+        for up in ('websocket', 'WebSocket', 'WEBSOCKET', 'Websocket', 'websocket, h2c', 'h2c, websocket', 'websocket,websocket'):
             for conn in ('Upgrade', 'upgrade', 'keep-alive, Upgrade'):
                 for with_sid in (True, False):
                     w = peer.make_world(impl, server_kwargs=dict(transports=['polling']))
